@@ -543,10 +543,67 @@ def _chunks(xs, n):
     return [xs[i:i + k] for i in range(0, len(xs), k)]
 
 
+# ------------------------------------------------------------------ e2e
+
+E2E_SCRIPTS = {
+    # degenerate but legal inputs: whole runs of cli.ddsmt_main on them
+    'atoms': 'a b "s t" |q q|',
+    'lone': 'x',
+    'cmt': '; first\n(check-sat) ; second\n; third\n',
+    'nil': '() (()) (check-sat)',
+    'empty': '',
+    'blank': ' \n\t\n',
+    'mixed': 'a (assert (> x 1)) "s" (check-sat)',
+    'decl': '(declare-const x)(declare-fun)(define-fun f)(assert)(check-sat)',
+}
+
+
+def e2e_once(vec, script, strategy, V, S):
+    """One complete run of cli.ddsmt_main (real files, real argparse
+    namespace, all mutators enabled) under the verdict function / schedule
+    encoded by ``vec``: no exception may escape."""
+    from harness import c01
+    from harness import strat_common as SC
+    SC.SCRIPTS['_c04_' + script] = E2E_SCRIPTS[script]
+    try:
+        r, read = c01.one_run(vec, strategy, 1, '_c04_' + script, 'all',
+                              'default', 'first', V, S)
+    except Exception as e:
+        import traceback
+        tb = traceback.extract_tb(e.__traceback__)[-1]
+        return (f'ddsmt_main on {E2E_SCRIPTS[script]!r} ended with '
+                f'{type(e).__name__}: {e} ({tb.filename.split("/")[-1]}:'
+                f'{tb.lineno})'), list(range(len(vec)))
+    finally:
+        SC.SCRIPTS.pop('_c04_' + script, None)
+    if r == 'skip':
+        return 'skip', read
+    if r and r.startswith('ddsmt_main exited'):
+        return r, read
+    return None, read           # what the run wrote is C01's business
+
+
+def make_e2e(script, strategy, tier):
+    V, S = (6, 2) if tier == 'quick' else (9, 3)
+
+    def run():
+        from vlib.engine import explore_choices
+        return explore_choices(
+            lambda vec: e2e_once(vec, script, strategy, V, S), V + S,
+            budget_s=150 if tier == 'quick' else 800)
+    return run
+
+
 def partitions(tier):
     b = bounds(tier)
     bud = 160 if tier == 'quick' else 850
     parts = []
+    for sc in E2E_SCRIPTS:
+        for st in ('ddmin', 'hierarchical', 'hybrid'):
+            parts.append({'name': f'e2e_{sc}_{st}', 'kind': 'choices',
+                          'run': make_e2e(sc, st, tier), 'budget_s': bud,
+                          'bounds': {'script': E2E_SCRIPTS[sc],
+                                     'strategy': st, 'mutators': 'all'}})
     for L in range(0, b['text_len'] + 1):
         parts.append({'name': f'text_len{L}', 'fn': make_text(L),
                       'setup': _setup_s, 'budget_s': bud,
@@ -614,6 +671,11 @@ def replay(part, cex):
         if part.startswith('isolate'):
             return isolate_body(cex['site'], cex['exc_i'], cex['victim_i'],
                                 cex['glob'], part.split('_')[1])
+        if part.startswith('e2e_'):
+            _, sc, st = part.split('_')
+            V, S = (6, 2) if tier == 'quick' else (9, 3)
+            r, _ = e2e_once(cex['bits'], sc, st, V, S)
+            return None if r in (None, 'skip') else r
         if part == 'exit':
             return exit_body(cex['kind'], cex['rc'])
         if part == 'usage':
